@@ -252,9 +252,9 @@ def impl_async_queue(case):
     flat._import_transitions()
     import transitions.extensions as ext
     cls = getattr(ext, case['acls'])
-    flags = (0, 1 if 'Hierarchical' in case['acls'] else 0, 0, 1)
+    flags = (1 if 'Graph' in case['acls'] else 0, 1 if 'Hierarchical' in case['acls'] else 0, 0, 1)
     try:
-        obs, free = c09.run_queue_on(case, cls, flags, None)
+        obs, free = c09.run_queue_on(case, cls, flags, 'mermaid' if flags[0] else None)
         return [1, c09.name_exns(obs)]
     except BaseException as ex:  # noqa
         return dict(harness_error='%s: %s' % (type(ex).__name__, ex))
@@ -272,7 +272,7 @@ def extra_checks(tier, seed):
     for i in range(n):
         rng = random.Random('C05a-%d-%d' % (seed, i))
         c = c09.gen_queue(rng)
-        c['acls'] = ['AsyncMachine', 'HierarchicalAsyncMachine'][i % 2]
+        c['acls'] = ['AsyncMachine', 'HierarchicalAsyncMachine', 'AsyncGraphMachine', 'HierarchicalAsyncGraphMachine'][i % 4]
         cases.append(c)
     mo = F.run_model(1, [c09.enc_queue(c) + [True] for c in cases])
     io = F.run_impl('c05', 'impl_async_queue', cases)
@@ -291,13 +291,18 @@ def extra_checks(tier, seed):
             bad = bad or (c, base, i)
     detail = dict(cases=len(cases), compared_inside_the_async_envelope=compared, with_queued_model=model_mode,
                   with_a_raising_call=raised, disagreements=0 if bad is None else 1)
+    # "without a queue, an event triggered from a callback is processed immediately and completely before the
+    # triggering callback returns" on the asyncio classes (callbacks await the nested trigger; Reent.v is the model)
+    import c18
+    _n, _ok, _detail, _rep = c18.async_flat_reentrant_stream(tier, seed + 900)
+    unq = ('unqueued_nested_asyncio', _ok, _detail, _rep)
     if bad:
         c, m, i = bad
-        return [('async_queues', False, detail,
+        return [unq, ('async_queues', False, detail,
                  dict(kind='counterexample', stream='asyncio classes, queued=True / queued=\'model\'', case=c, model_obs=m,
                       impl_obs=i, theorem='corr_C05 (Queue.drain = the asyncio classes\' queued processing)')),
                 hsm_queue_stream(tier, seed), hsm_reent_stream(tier, seed)]
-    return [('async_queues', True, detail, {}), hsm_queue_stream(tier, seed), hsm_reent_stream(tier, seed)]
+    return [unq, ('async_queues', True, detail, {}), hsm_queue_stream(tier, seed), hsm_reent_stream(tier, seed)]
 
 
 # ------------------------------------------------------------------ queued HIERARCHICAL machines
